@@ -565,6 +565,10 @@ def resolve_phis(body, e, reach):
             if site is None or site in reach:
                 alts.append(resolve_phis(body, alt, reach))
         return mir.mk_phi(alts) if alts else e
+    if e[0] == "field" and len(e) == 3:
+        return mir.mk_field(resolve_phis(body, e[1], reach), e[2])           # a projection of a now-unique aggregate is its component
+    if e[0] == "vfield" and len(e) == 4:
+        return mir.mk_vfield(resolve_phis(body, e[1], reach), e[2], e[3])
     return tuple(resolve_phis(body, x, reach) if isinstance(x, tuple) else x for x in e)
 
 
@@ -819,12 +823,12 @@ def variant_atoms(body):
         if not adt or not ty.startswith(LOCAL_ENUM_PREFIXES) or len(adt.get("variants", [])) < 2:
             continue
         x = body.rec_place(st["rv"]["place"], ds[0][0], ds[0][1])
-        names = [v["name"] for v in adt["variants"]]
+        by_discr = {str(v.get("discr", i)) if v.get("discr", "") != "" else str(i): v["name"] for i, v in enumerate(adt["variants"])}
         for val, tgt in t["targets"]:
-            i = int(val)
-            if 0 <= i < len(names) and len(t["targets"]) <= 3:
-                e = ("isvar", x, i, mir.norm_name(ty), names[i])
-                out.append((e, canon_cmp("Eq", x, ("agg", mir.norm_name(ty), names[i], ())), bi))
+            nm = by_discr.get(str(val))
+            if nm is not None and len(t["targets"]) <= 3:
+                e = ("isvar", x, int(val), mir.norm_name(ty), nm)        # int(val): the discriminant value the switch compares with
+                out.append((e, canon_cmp("Eq", x, ("agg", mir.norm_name(ty), nm, ())), bi))
     return out
 
 
